@@ -184,6 +184,8 @@ func checkC12(cx *Ctx, r *Report) {
 		}
 	}
 
+	cx.checkTags(r, "R-TAG", "samlp.AttributeQueryType", "soap.AttributeQueryEnvelope", "soap.AttributeQueryBody", "saml.AttributeType", "saml.SubjectType", "saml.NameIDType")
+
 	// --- filter ------------------------------------------------------------------------
 	cx.checkAttrFilter(r)
 
